@@ -16,6 +16,7 @@ from ..triage import exc_key
 from ..unit import Outcome, Unit
 
 ID = "C01"
+QUICK_SCALE = 1.0  # this check already takes 75-95 s in the quick tier
 RULE = (
     "case = (input bytes, depth limit); inputs are grammar-directed token soups (accepted language + near-misses of every "
     "decoder, recursively wrapped/encoded), flat edge-token soups, shell command texts with every cut point, generated PE "
